@@ -25,6 +25,9 @@ func init() {
 				Doc: "The pooled reader is released exactly once and not before the entity was read (C13.a): a reader released by a helper is handed to the next request while this one still decodes from it."},
 			{ID: "C16.e", Template: "T-OWN", Required: true, Run: ruleNoCompressorCopy,
 				Doc: "Decompressors handed out by the providers are distinct objects, never shallow copies of one reader (same obligations as C13.f): otherwise a gzip body is decoded with a flate state another request is using."},
+			{ID: "C16.f", Template: "T-PROV", Required: true,
+				Doc: "'An error from reading, never a panic': every reader a provider hands out is fully constructed (a primed gzip.Reader from the constructor, not new(gzip.Reader)) - same obligations as C13.d. Close on an unprimed reader dereferences its nil decompressor when the first body it sees has a broken header.",
+				Run: ruleC13d},
 		},
 	})
 }
